@@ -298,3 +298,25 @@ Proof.
     rewrite LM2. xstep. rewrite (wrap_U32_fld _ OM2).
     destruct (a_m (nth i2 achars arow0) =? 0); reflexivity.
 Qed.
+
+(* uc_cshape(cur, prev, next), for all ints: the model's shaped code point; the memory is not written *)
+Theorem tr_uc_cshape m cur prev next d fuel :
+  globals_at m -> int_ok cur -> int_ok prev -> int_ok next -> (length achars < fuel)%nat ->
+  callf cprog fuel (S (S (S d))) F_uc_cshape [VInt cur; VInt prev; VInt next] m
+  = Ok (VInt (uc_cshape cur prev next), m).
+Proof.
+  intros Hg Hc Hp Hn Hf. enter F_uc_cshape cf_uc_cshape. xstep.
+  rewrite (tr_find_achar m cur (S d) fuel Hg Hc Hf). xstep.
+  unfold uc_cshape. rewrite <- row_index_model.
+  destruct (row_index cur) as [i|] eqn:E; cbn [row_ptr option_map]; xstep; [|reflexivity].
+  rewrite (tr_can_join m prev cur d fuel Hg Hp Hc Hf). xstep.
+  rewrite (tr_can_join m cur next d fuel Hg Hc Hn Hf). xstep.
+  destruct (row_index_lt _ _ E) as [L _].
+  destruct (load_achars m i Hg L) as [LC [LI [LM [LF [OC [_ [OI [OM OF]]]]]]]].
+  cbv zeta. unfold nz. fld_off.
+  destruct (can_join prev cur), (can_join cur next); cbn [b2z andb negb];
+    repeat (progress (xstep; fld_off; rewrite ?LC, ?LI, ?LM, ?LF;
+      rewrite ?(wrap_U32_fld _ OC), ?(wrap_U32_fld _ OI), ?(wrap_U32_fld _ OM), ?(wrap_U32_fld _ OF);
+      rewrite ?(wrap_I32_fld _ OC), ?(wrap_I32_fld _ OI), ?(wrap_I32_fld _ OM), ?(wrap_I32_fld _ OF)));
+    match goal with |- context [negb (?x =? 0)] => destruct (x =? 0) end; reflexivity.
+Qed.
